@@ -36,6 +36,12 @@
      every mode (same terminal condition, no invented byte, a regular body byte for byte); hence a torn
      reply (and a torn upload) never reads back as complete under any mode, and the theorems of C and H
      hold with the logger in the path; a snapshot that drops the read error is refuted by a witness
+  L. the dial phase (`forwarder.Dialer`, net.go): the retry loop returns `err == nil` only together with a
+     connection — `(nil, nil)` is unreachable for every sequence of attempt outcomes, every attempt budget and
+     every point at which the caller's context is done —, hence `DialContext` never hands a nil connection to
+     the connection tracker; a dial phase in which every attempt ran into a time-out (the dialer's own or the
+     caller's deadline: dialvia's `ConnectTimeout`) is answered 504 on every route; "stop retrying once the
+     context is done, before the error is recorded" is refuted by a witness, "… after it is recorded" is not
 
   Not in the model (observed by the correspondence runs only): panic-freedom of net/http and
   crypto/tls on hostile bytes, TCP delivery, the scheduler.
@@ -44,6 +50,7 @@ import FwdVerif.Lemmas.C12
 import FwdVerif.Lemmas.C12Label
 import FwdVerif.Lemmas.C12Handler
 import FwdVerif.Lemmas.C12Accept
+import FwdVerif.Lemmas.C12Dial
 
 namespace FwdVerif
 namespace C12
@@ -1736,6 +1743,131 @@ theorem c12_fields_variant_lets_in_witness :
     parseBasicAuthFields (bs "Basic  dXNlcjpwYTpzcw==") = .ret (some (bs "user", bs "pa:ss")) ∧
     parseBasicAuthGo (bs "Basic  dXNlcjpwYTpzcw==") = .ret none := by
   refine ⟨?_, ?_⟩ <;> with_unfolding_all decide
+
+/-! ## L. the dial phase -/
+
+/-- The retry loop of `Dialer.dialContext` reports success (`err == nil`) only together with a connection:
+    `(nil, nil)` is unreachable — for every attempt budget (non-positive ones included), every sequence of
+    attempt outcomes and every point at which the caller's context is done. -/
+theorem c12_dial_loop_never_succeeds_without_connection (attempts : Int) (out : Nat → Attempt) :
+    (dialLoop attempts out).err = none → (dialLoop attempts out).conn.isSome = true := by
+  intro h
+  rcases dialLoopFrom_err_none out (attemptsOf attempts) 0 none h with h' | ⟨h0, _⟩
+  · exact h'
+  · have := attemptsOf_pos attempts
+    omega
+
+/-- hence `Dialer.DialContext` never wraps a nil connection for tracking: no dial outcome is a nil dereference -/
+theorem c12_dial_never_panics (attempts : Int) (out : Nat → Attempt) : dialContext attempts out ≠ .panic := by
+  unfold dialContext tracked
+  have h := c12_dial_loop_never_succeeds_without_connection attempts out
+  cases he : (dialLoop attempts out).err with
+  | some e => simp
+  | none =>
+    have hc := h he
+    cases hcn : (dialLoop attempts out).conn with
+    | some c => simp
+    | none => rw [hcn] at hc; cases hc
+
+/-- a connection handed out is the one an attempt within the budget returned -/
+theorem c12_dial_connection_is_an_attempts (attempts : Int) (out : Nat → Attempt) (c : Nat)
+    (h : dialContext attempts out = .conn c) : ∃ i, i < attemptsOf attempts ∧ (out i).res = .conn c := by
+  unfold dialContext tracked at h
+  cases he : (dialLoop attempts out).err with
+  | some e => rw [he] at h; cases h
+  | none =>
+    rw [he] at h
+    cases hcn : (dialLoop attempts out).conn with
+    | none => rw [hcn] at h; cases h
+    | some c' =>
+      rw [hcn] at h
+      have hc : c' = c := by cases h; rfl
+      subst hc
+      obtain ⟨j, _, h2, h3⟩ := dialLoopFrom_conn out c' (attemptsOf attempts) 0 none hcn
+      exact ⟨j, by omega, h3⟩
+
+/-- when every attempt of the budget fails, the caller gets the error of the LAST attempt -/
+theorem c12_dial_reports_last_failure (attempts : Int) (out : Nat → Attempt)
+    (h : ∀ i, i < attemptsOf attempts → ∃ e, (out i).res = .fail e) :
+    ∃ e, (out (attemptsOf attempts - 1)).res = .fail e ∧ dialContext attempts out = .error e := by
+  have hp := attemptsOf_pos attempts
+  obtain ⟨e, he⟩ := h (attemptsOf attempts - 1) (by omega)
+  refine ⟨e, he, ?_⟩
+  unfold dialContext dialLoop
+  rw [dialLoopFrom_all_fail out (attemptsOf attempts) 0 none (fun j _ h2 => h j (by omega))]
+  have hne : attemptsOf attempts ≠ 0 := by omega
+  simp [tracked, hne, he]
+
+/-- A dial phase in which every attempt ran into a time-out — the dialer's own `DialTimeout` or the caller's
+    deadline, in any mixture — is answered 504, on every route (origin, the transport's proxy, dialvia through
+    an http(s) or a socks5 upstream proxy). -/
+theorem c12_dial_timeouts_504 (attempts : Int) (out : Nat → Attempt) (r : DialRoute)
+    (h : ∀ i, i < attemptsOf attempts → ∃ e, (out i).res = .fail e ∧ e.isTimeout = true) :
+    ∃ v, dialVerdict r (dialContext attempts out) = some v ∧ v.1 = 504 := by
+  obtain ⟨e, he, hd⟩ := c12_dial_reports_last_failure attempts out (fun i hi => (h i hi).imp fun _ h => h.1)
+  obtain ⟨e', he', ht⟩ := h (attemptsOf attempts - 1) (by have := attemptsOf_pos attempts; omega)
+  rw [he] at he'
+  cases he'
+  rw [hd]
+  refine ⟨_, rfl, ?_⟩
+  cases r <;> cases e <;> first | decide | cases ht
+
+/-- The caller's deadline passes during the FIRST attempt (every later attempt then fails at once the same
+    way: the context stays done): the caller is told so — `dial tcp …: i/o timeout` — and the client reads 504. -/
+theorem c12_context_expiry_in_first_attempt_is_reported_as_timeout (attempts : Int) (out : Nat → Attempt)
+    (r : DialRoute) (h0 : out 0 = ⟨.fail .ctxDeadline, true⟩)
+    (hlater : ∀ i, 0 < i → out i = ⟨.fail .ctxDeadline, true⟩) :
+    dialContext attempts out = .error .ctxDeadline ∧
+      ∃ v, dialVerdict r (dialContext attempts out) = some v ∧ v.1 = 504 := by
+  have hall : ∀ i, out i = ⟨.fail .ctxDeadline, true⟩ := by
+    intro i
+    cases i with
+    | zero => exact h0
+    | succ n => exact hlater _ (Nat.succ_pos n)
+  refine ⟨?_, c12_dial_timeouts_504 attempts out r (fun i _ => ⟨.ctxDeadline, by rw [hall i], rfl⟩)⟩
+  obtain ⟨e, he, hd⟩ := c12_dial_reports_last_failure attempts out (fun i _ => ⟨.ctxDeadline, by rw [hall i]⟩)
+  rw [hall] at he
+  cases he
+  exact hd
+
+example : dialContext 3 (scriptOf [⟨.fail .ctxDeadline, true⟩, ⟨.fail .ctxDeadline, true⟩, ⟨.fail .ctxDeadline, true⟩]) = .error .ctxDeadline ∧
+    dialVerdict .dialviaHTTP (.error .ctxDeadline) = some (504, "net_dial") ∧
+    dialVerdict .dialviaSOCKS (.error .ctxDeadline) = some (504, "net_socks connect") ∧
+    dialVerdict .transportProxy (.error .timeout) = some (504, "net_proxyconnect") ∧
+    dialVerdict .direct (.error .refused) = some (502, "net_dial") ∧
+    dialContext 2 (scriptOf [⟨.fail .timeout, false⟩, ⟨.conn 7, false⟩]) = .conn 7 ∧
+    dialContext 0 (scriptOf [⟨.fail .refused, false⟩, ⟨.conn 7, false⟩]) = .error .refused := by decide
+
+/-- the routes of §4 report a dial failure as this section does -/
+theorem c12_dial_route_agrees (ex : Exchange) :
+    dialErr ex true = dialErrKind (routeOf ex) .timeout ∧ dialErr ex false = dialErrKind (routeOf ex) .refused := by
+  unfold dialErr routeOf
+  by_cases h1 : viaTransportProxy ex = true
+  · simp [h1, dialErrKind, DialErr.isTimeout]
+  · by_cases h2 : ex.viaUpstream = true <;> simp [h1, h2, dialErrKind, DialErr.isTimeout]
+
+/-- an early exit that records the error first keeps the guarantee … -/
+theorem c12_dial_loop_stop_never_succeeds_without_connection (attempts : Int) (out : Nat → Attempt) :
+    (dialLoopStop attempts out).err = none → (dialLoopStop attempts out).conn.isSome = true := by
+  intro h
+  rcases dialLoopStopFrom_err_none out (attemptsOf attempts) 0 none h with h' | ⟨h0, _⟩
+  · exact h'
+  · have := attemptsOf_pos attempts
+    omega
+
+/-- … counter-model (kernel-checked): the early exit BEFORE the error is recorded returns `(nil, nil)` when the
+    caller's context ends the first attempt — a deadline or a cancellation, whatever the budget —, which the
+    connection tracker dereferences; the code as it is reports the time-out.  A failure on an earlier attempt
+    hides the mistake (the retry tests pass). -/
+theorem c12_dial_loop_break_witness :
+    dialLoopBreak 1 (scriptOf [⟨.fail .ctxDeadline, true⟩]) = ⟨none, none⟩ ∧
+    tracked (dialLoopBreak 1 (scriptOf [⟨.fail .ctxDeadline, true⟩])) = .panic ∧
+    tracked (dialLoopBreak 3 (scriptOf [⟨.fail .ctxCanceled, true⟩])) = .panic ∧
+    dialContext 1 (scriptOf [⟨.fail .ctxDeadline, true⟩]) = .error .ctxDeadline ∧
+    dialLoopBreak 3 (scriptOf [⟨.fail .timeout, false⟩, ⟨.fail .ctxDeadline, true⟩]) = ⟨none, some .timeout⟩ ∧
+    dialLoopBreak 3 (scriptOf [⟨.fail .timeout, false⟩, ⟨.fail .timeout, false⟩, ⟨.fail .timeout, false⟩]) =
+      dialLoop 3 (scriptOf [⟨.fail .timeout, false⟩, ⟨.fail .timeout, false⟩, ⟨.fail .timeout, false⟩]) := by
+  decide
 
 end C12
 end FwdVerif
